@@ -700,11 +700,24 @@ Example phrase_on_encoded_instance :
   compute_phrase_freqs (map encode_spec [p7; p8]) = AOk [(0, 2); (1, 0); (2, 1)] /\
   occ [7; 8] [7; 8; 7; 8; 9] = 2 /\ occ [7; 8] [8; 7] = 0.
 Proof.
-  cbv zeta. unfold good_term, bounded. rewrite pow28, pow18, pow62.
-  repeat split; try (vm_compute; reflexivity);
-    try (repeat constructor; cbn; lia); try (cbn; lia);
-    try (intros kp H1 H2; cbn [In] in H1, H2; intuition congruence).
+  cbv zeta.
+  assert (G : forall l : list (N * N), sorted2 l ->
+              forallb (fun kp => (fst kp <? 268435456) && (snd kp <=? 262142)) l = true ->
+              (length l < 100)%nat -> good_term l).
+  { intros l Hs Hf0 Hl. pose proof (proj1 (forallb_forall _ _) Hf0) as Hf. clear Hf0. split; [exact Hs|]. split; [|split].
+    - apply Forall_forall. intros kp Hkp. specialize (Hf kp Hkp). rewrite pow28, pow18.
+      apply andb_true_iff in Hf. destruct Hf as [H1 H2]. apply N.ltb_lt in H1. apply N.leb_le in H2. lia.
+    - apply Forall_forall. intros kp Hkp. specialize (Hf kp Hkp).
+      apply andb_true_iff in Hf. destruct Hf as [H1 H2]. apply N.leb_le in H2. exact H2.
+    - rewrite pow62. lia. }
+  split; [apply G; [cbn; unfold lt2; cbn; intuition lia|reflexivity|cbn; lia]|].
+  split; [apply G; [cbn; unfold lt2; cbn; intuition lia|reflexivity|cbn; lia]|].
+  split.
+  { cbn [adj_distinct]. split; [|exact I]. intros kp H1 H2. cbn [In] in H1, H2.
+    destruct H1 as [<-|[<-|[<-|[<-|[]]]]]; destruct H2 as [H2|[H2|[H2|[H2|[]]]]]; discriminate. }
+  split; [vm_compute; reflexivity|]. split; reflexivity.
 Qed.
+
 
 Print Assumptions intersect_counts_ok.
 Print Assumptions phrase_l2r_correct.
